@@ -256,6 +256,15 @@ def work_bench(args):
             elif math.isfinite(alpha) and not close(ga, alpha, rel=1e-6, abs_=1e-6 * max(1.0, abs(apy_a), abs(beta * apy_b))):
                 part.violation("C20|alpha_beta|alpha", "alpha != apy_p - beta*apy_b",
                                {"fn": "alpha_beta", "series": fa, "benchmark": fb}, {"got": ga, "expected": alpha})
+            # the benchmark is a series of the same length; how it is labelled (bars stamped at close time, a plain range) does not enter the definition
+            for lab, other in (("shifted", pd.Series(fb, index=idx + pd.Timedelta(days=1))), ("range", pd.Series(fb))):
+                with np.errstate(all="ignore"):
+                    ga2, gb2 = calc.alpha_beta(sa, other, dur)
+                part.count("evaluations")
+                if not close(gb2, beta, rel=1e-7, abs_=1e-9) or (math.isfinite(alpha) and not close(ga2, alpha, rel=1e-6, abs_=1e-6 * max(1.0, abs(apy_a), abs(beta * apy_b)))):
+                    part.violation(f"C20|alpha_beta|benchmark-labels|{lab}", "alpha / beta change when the benchmark series carries other index labels", 
+                                   {"fn": "alpha_beta", "series": fa, "benchmark": fb, "labels": lab}, {"got": [ga2, gb2], "expected": [alpha, beta]})
+                    break
             if a is pairs_a[0] and b is all_b[min(3, len(all_b) - 1)]:
                 with np.errstate(all="ignore"):
                     pm = core.performance_metrics(sa, benchmark=sb)
